@@ -6,8 +6,10 @@ PROP = {
     "race": True,
     "parts": [
         {"name": "server", "pkg": "internal/dnsforward",
-         "files": ["dnsforward/common_world_test.go", "dnsforward/c01_test.go", "dnsforward/c05_test.go"],
-         "tests": [("TestVFC05Programs", (100, 400)), ("TestVFC05SafeSearchToggle", (6, 30))]},
+         "files": ["dnsforward/common_world_test.go", "dnsforward/c01_test.go", "dnsforward/c05_test.go",
+                   "dnsforward/c05_pause_test.go"],
+         "tests": [("TestVFC05Programs", (100, 400)), ("TestVFC05SafeSearchToggle", (6, 30)),
+                   ("TestVFC05PauseWorkerVsAdmin", (20, 80))]},
         # the statistics module's own updater || hourly flush || reader programs (written for C09) re-run under the
         # race detector: its verdict counts for C05, its coverage counters stay with C09
         {"name": "stats", "pkg": "internal/stats", "files": ["stats/c09_seq_test.go", "stats/c09_conc_test.go"],
